@@ -346,7 +346,12 @@ fn sig_of(pk: &[u8; 49], digest: &[u8]) -> [u8; 96] {
 }
 pub unsafe fn ECDSA_size(key: *const EC_KEY) -> usize {
     assert!(!key.is_null() && !(*key).freed);
-    if (*key).group { 104 } else { 0 }
+    // constant on purpose: the caller returns early on a different value, BEFORE ECDSA_sign queries the
+    // ideal signature function; a result read through the key pointer is symbolic to CBMC (the pointer
+    // is an if-then-else over the Ok/Err variants of earlier Results) and would make the number of
+    // oracle queries path-dependent.  Keys without a group are outside the model (asserted).
+    assert!((*key).group, "model: ECDSA_size on a key without a group");
+    104
 }
 pub unsafe fn ECDSA_sign(_type: c_int, digest: *const u8, digest_len: usize, sig: *mut u8, sig_len: *mut c_uint, key: *const EC_KEY) -> c_int {
     assert!(!key.is_null() && !(*key).freed && !sig.is_null() && !sig_len.is_null());
